@@ -1,8 +1,14 @@
 """C18 -- The meta application never reveals secrets and always renders.
 
+The code of the views is followed wherever it is defined (``_view_functions``): everything in meta.py, the methods of the
+peripheral classes and of the meta application (bases / mixins included) in whatever module of the package they live, the
+functions installed as a ``get_context``, and every function of the tree a view hands a host object to -- a helper, a
+peripheral or a view method that moved to another module and is imported back is judged exactly as before.
+
 Decided:
-  R18.a  who may read resource values -- a value-flow analysis over meta.py.  Sources are the reads of a ``.resources``
-         mapping and of ``get_defaults_dict()``; the flow is followed through local aliases, copies (``dict(m)``,
+  R18.a  who may read resource values -- a value-flow analysis over the views.  Sources are the reads of a ``.resources``
+         mapping (also ``getattr(x, 'resources')`` and the glom specs ``glom(x, 'resources')`` / ``glom(x, T.resources)``; a glom
+         path *through* the mapping reads a value) and of ``get_defaults_dict()``; the flow is followed through local aliases, copies (``dict(m)``,
          ``sorted(m.items())``, ``enumerate``), helper functions / (static)methods of the tree the mapping, a pair or
          a value is handed to (also nested functions, which in addition read the tagged locals of their enclosing
          function), comprehensions, generators and lambdas.  Every occurrence must be one of
@@ -29,7 +35,9 @@ Decided:
   R18.b  middleware info: where get_mw_infos (loop, comprehension, map(), generator or row helper) holds one
          middleware, only the class name, provides, requires and repr(mw) are read; no ``__repr__`` / ``__str__`` of
          Middleware or a subclass reads -- itself or through the methods it calls -- an attribute whose name
-         contains 'secret' or 'key', ``vars()`` / ``__dict__`` or an attribute chosen at run time;
+         contains 'secret' or 'key', ``vars()`` / ``__dict__`` or an attribute chosen at run time; the same list of
+         attributes holds wherever else a view iterates over the middlewares of an application / a route, and no view
+         function reads an attribute named like key material (``secret_key``, ``signing_key``, ..) from any object;
   R18.c  sections fail soft: the inject(<peripheral>.get_context, ..) call of get_main and the two inject calls of
          render_main_page_html -- in the method, in a helper, a nested function or a lambda that is followed to where
          it runs -- are each under an ``except Exception`` handler (around the call or around the call of the helper)
@@ -38,7 +46,12 @@ Decided:
          is protected only where it is consumed; a placeholder stored in a plain local is read on the way on from the
          handler (not dropped by ``continue`` / by merging another name).  The same standard holds for every other
          method of the meta application that is installed in its route table (a second JSON endpoint, a renderer of
-         its own) and runs peripheral code -- also when it calls the peripheral's method directly;
+         its own) and runs peripheral code -- also when it calls the peripheral's method directly -- and for *every*
+         method of a peripheral object a routed view calls (not only the three the views call today).  The handler is
+         total as far as the shape tells: it reads from the exception only what every exception has (guarded by
+         hasattr / a nested try otherwise), and every name that only the success path of the try statement binds and
+         that is read -- outside any protection -- on the way on from the handler is bound by the handler or earlier in
+         the same iteration (else: NameError for the first section, the previous section's data for the others);
   R18.d  templates: every reference of the meta_*.html templates is escaped, except the allow-listed
          {content|s} of meta_base.html, whose value is an ashes render of a checked section template.
   R18.e  textual representations: the views print host objects they know nothing about (repr() of resource values,
@@ -54,8 +67,8 @@ Decided:
          of the tree is certain to reject is put into a page context on any path (locals are followed through all
          their bindings and container stores, helpers through their return values); vacuous when the JSON view is
          provably rendered in dev mode.
-Declined: "200 for any host application" beyond R18.c / R18.f (code outside the protected calls, totality of the
-handlers, JSON encodability of attributes of host objects such as a route's render argument); secrets inside the repr
+Declined: "200 for any host application" beyond R18.c / R18.f (code outside the protected calls other than calls of
+peripheral methods, totality of the handlers beyond the clauses above, JSON encodability of attributes of host objects such as a route's render argument); secrets inside the repr
 of non-secret-named resources whose class is not part of the tree.
 """
 import ast
@@ -1602,8 +1615,28 @@ def _r18a(rep, repo, meta):
                             'could not be located)')
     # contexts never hold framework objects themselves
     ctx = _context_functions(repo, meta)
-    objs = _object_names(repo, ctx)
+    objs, colls = _object_names(repo, ctx, with_colls=True)
     n_vals = 0
+
+    def object_list(fi, e):
+        """``e`` is a list of host objects itself: ``<object>.routes`` / ``.middlewares`` / ``.peripherals``, a local that names
+        one, or a list() / tuple() / sorted() / reversed() copy, a slice or an ``or`` / conditional choice of such."""
+        while True:
+            if isinstance(e, ast.Call) and isinstance(e.func, ast.Name) and e.func.id in SEQ_THROUGH | {'set', 'frozenset'} and e.args and \
+                    e.func.id not in _local_names(fi):
+                e = e.args[0]
+            elif isinstance(e, ast.Subscript) and isinstance(e.slice, ast.Slice):
+                e = e.value
+            else:
+                break
+        if isinstance(e, ast.BoolOp):
+            return any(object_list(fi, v) for v in e.values)
+        if isinstance(e, ast.IfExp):
+            return object_list(fi, e.body) or object_list(fi, e.orelse)
+        if isinstance(e, ast.Attribute) and e.attr in ('routes', 'middlewares', 'peripherals') and isinstance(e.value, ast.Name) and \
+                e.value.id in objs[fi.key]:
+            return True
+        return isinstance(e, ast.Name) and e.id in colls[fi.key]
     for fi in ctx:
         for n in walk_body(fi.node):
             vals = []
@@ -1628,6 +1661,10 @@ def _r18a(rep, repo, meta):
                 if isinstance(v, ast.Name) and v.id in objs[fi.key]:
                     rep.fail('R18.a', fkey(fi, 'context value ' + v.id), 'the %s object itself is stored in a page context: the JSON view would '
                              'traverse it (resources, secret keys)' % v.id, fi.mod, v)
+                elif object_list(fi, v):
+                    rep.fail('R18.a', fkey(fi, 'context value ' + norm(v)), 'a list of application / route / middleware objects (%s) is stored in a '
+                             'page context: the JSON encoder rejects the objects (TypeError => the JSON view answers 500), a template would print '
+                             'their reprs' % short(v, 40), fi.mod, v)
     rep.ok('R18.a', '%s::context values' % META, '%d values stored in peripheral contexts (%d functions); none is an application/route/'
            'middleware/request object' % (n_vals, len(ctx)), meta)
     rep.floor('R18.a', 5)
@@ -2517,7 +2554,8 @@ def _self_reads(repo, fi, me, depth=0):
 
 def _r18b(rep, repo, meta):
     gm = meta.func('get_mw_infos')
-    scopes = _mw_scopes(repo, gm, set())
+    seen_scopes = set()
+    scopes = _mw_scopes(repo, gm, set(), seen=seen_scopes)
     if len(scopes) != 1:
         raise AnalysisError('get_mw_infos: %d iterations over the middlewares found (one expected)' % len(scopes))
     sf, scope, mv = scopes[0]
@@ -2526,6 +2564,38 @@ def _r18b(rep, repo, meta):
     ok = attrs <= MW_ATTRS
     rep.check('R18.b', fkey(gm, 'attributes read'), ok, 'only %s (and repr(mw)) are read from a middleware' % sorted(attrs) if ok else
               'get_mw_infos reads %s from middlewares' % sorted(attrs - MW_ATTRS), gm.mod, gm.node)
+    # the same standard wherever else a view holds one middleware of the host (the middlewares of a route in the route
+    # listing, a second listing in a peripheral's context, ..)
+    per_fn = {}
+    for fi in _context_functions(repo, meta):
+        if fi is gm:
+            continue
+        for sf, scope, mv in _mw_scopes(repo, fi, set(), seen=seen_scopes):
+            attrs = set()
+            _mw_reads(repo, sf, scope, mv, attrs)
+            i = per_fn[sf.key] = per_fn.get(sf.key, -1) + 1
+            ok = attrs <= MW_ATTRS
+            rep.check('R18.b', fkey(sf, 'middleware attributes read') + ('' if i == 0 else '#%d' % i), ok,
+                      '%s reads only %s from the middleware held by %s' % (sf.qualname, sorted(attrs), mv) if ok else
+                      '%s reads %s from the middlewares it iterates over (shown on the meta page for every visitor)' % (sf.qualname, sorted(attrs - MW_ATTRS)),
+                      sf.mod, sf.node)
+    # .. and no view reads an attribute named like key material from any object (``<mw>.secret_key`` reached by index, by
+    # getattr with a constant name, through the request, ..)
+    n_views = 0
+    for fi in _view_functions(repo, meta):
+        n_views += 1
+        for n in _walk(fi):
+            nm = None
+            if isinstance(n, ast.Attribute) and isinstance(n.ctx, ast.Load) and _secretish(n.attr):
+                nm = n.attr
+            elif isinstance(n, ast.Call) and call_name(n) == 'getattr' and len(n.args) >= 2 and 'getattr' not in _local_names(fi):
+                v = _fold_str(repo, fi, n.args[1])
+                if v is not None and _secretish(v):
+                    nm = v
+            if nm is not None:
+                rep.fail('R18.b', fkey(fi, n), '%s reads the attribute %s (%s): key material would be shown on the meta page'
+                         % (fi.qualname, nm, short(n, 50)), fi.mod, n)
+    rep.ok('R18.b', '%s::key material' % META, 'no attribute named like key material is read in the %d view functions' % n_views, meta)
     mwbase = repo.mod('clastic.middleware.core').cls('Middleware')
     n_repr = 0
     for m in repo.all_internal_modules():
